@@ -304,10 +304,23 @@ func cmdCheck(args []string, writeLedger bool) {
 	}
 	knownBy := map[string]KnownFinding{}
 	for _, k := range known {
-		if k.Kind == "known" && k.Property == prop {
-			knownBy[k.Obligation] = k
+		if k.Kind == "known" {
+			// a recorded finding applies to every property whose obligations include it
 			if o := byName[k.Obligation]; o != nil {
+				knownBy[k.Obligation] = k
 				o.Known = true
+			}
+		}
+	}
+	if !writeLedger {
+		// obligations that are not discharged on the unchanged tree are never claimed: no long retries for them
+		if lb, err := os.ReadFile(filepath.Join(root, "ledger", prop+".json")); err == nil {
+			var lg0 Ledger
+			_ = json.Unmarshal(lb, &lg0)
+			for _, n := range lg0.Unproved {
+				if o := byName[n]; o != nil {
+					o.Known = true
+				}
 			}
 		}
 	}
